@@ -136,3 +136,90 @@ func verifC11RuleChange() {
 }
 
 func VerifC11RuleChange() { verifC11RuleChange() }
+
+// verifC07Invoke: a kernel contract method carries the confirmed method rule "B" (weight 1, threshold 1).
+// An invocation initiated by A with an arbitrary subset of {B, C} as further signers is pre-executed,
+// assembled, signed and verified with the real ACL manager: it is accepted exactly when B signs
+// (nothing is invoked without the signatures the method's rule demands).
+func verifC07Invoke() {
+	vrt.InitPkg("github.com/xuperchain/xupercore/kernel/contract/manager")
+	vrt.InitPkg("github.com/xuperchain/xupercore/kernel/contract/kernel")
+	e := vkit.NewEnv("c07i", vkit.Genesis("0", "9", "5"), nil)
+	names := []string{"A", "B", "C"}
+	st := vcrypto.Ideal(names)
+	vrt.CryptoClient = st
+	s, sc := e.NewStateCtx("live", st, nil)
+	mgr, err := contract.CreateManager("default", &contract.ManagerConfig{Basedir: "/verifmem/c07i/contract", BCName: "c07i", Core: verifCore{},
+		XMReader: s.CreateXMReader(), Config: &contract.ContractConfig{LogDriver: vlog.Nop{}, Xkernel: contract.XkernelConfig{Enable: true, Driver: "default"}}})
+	vrt.Assert(err == nil, "contract-manager-created")
+	if err != nil {
+		return
+	}
+	sc.ContractMgr = mgr
+	chain := &Chain{ctx: &common.ChainCtx{BCName: "c07i", Ledger: e.L, State: s, Contract: mgr, Crypto: st}, log: vlog.Nop{}}
+	chain.ctx.XLog = vlog.Nop{}
+	chain.ctx.Timer = timer.NewXTimer()
+	ac := &actx.AclCtx{BcName: "c07i", Ledger: agent.NewLedgerAgent(chain.ctx), Contract: mgr}
+	ac.XLog = vlog.Nop{}
+	ac.Timer = timer.NewXTimer()
+	aclMgr, err := acl.NewACLManager(ac)
+	vrt.Assert(err == nil, "acl-manager-created")
+	if err != nil {
+		return
+	}
+	sc.AclMgr = aclMgr
+	vrt.Assert(s.Play(e.Root.Blockid) == nil, "genesis-plays")
+	mgr.GetKernRegistry().RegisterKernMethod("$vault", "open", func(ctx contract.KContext) (*contract.Response, error) {
+		if err := ctx.Put("vault", []byte("door"), []byte("open")); err != nil {
+			return nil, err
+		}
+		return &contract.Response{Status: 200}, nil
+	})
+	// the confirmed method rule; with guarded == false the method has no rule and anybody may call it
+	guarded := vrt.Choice("method-has-a-rule", 2) == 1
+	t0 := vkit.Tx("t0", nil, nil)
+	if guarded {
+		vkit.WithKey(t0, aclu.GetContractBucket(), aclu.MakeContractMethodKey("$vault", "open"), nil, 0, []byte(`{"pm":{"rule":1,"acceptValue":1},"aksWeight":{"B":1}}`))
+	} else {
+		vkit.WithKey(t0, "other", "k", nil, 0, []byte("v"))
+	}
+	b1 := vkit.Block(e.Root.Blockid, 1, []*lpb.Transaction{vkit.Coinbase("cb1", "M", []byte{7}), t0})
+	vrt.Assert(e.L.ConfirmBlock(b1, false).Succ && s.Play(b1.Blockid) == nil, "prior-state-built")
+
+	signers := [3]bool{false, vrt.Bool("signer-B"), vrt.Bool("signer-C")}
+	var auth []string
+	for k, in := range signers {
+		if in {
+			auth = append(auth, names[k])
+		}
+	}
+	rctx := &xctx.BaseCtx{XLog: vlog.Nop{}, Timer: timer.NewXTimer()}
+	reqs := []*protos.InvokeRequest{{ModuleName: "xkernel", ContractName: "$vault", MethodName: "open"}}
+	resp, perr := chain.PreExec(rctx, reqs, "A", auth)
+	vrt.Assert(perr == nil, "pre-execution-succeeds")
+	if perr != nil {
+		return
+	}
+	tx := &lpb.Transaction{Version: 3, Initiator: "A", Nonce: "n", Timestamp: 7, Desc: []byte("invoke"), AuthRequire: auth,
+		ContractRequests: resp.Requests, TxInputsExt: resp.Inputs, TxOutputsExt: resp.Outputs,
+		TxInputs:  []*protos.TxInput{vkit.In(e.RootTx.Txid, 0, "A", big.NewInt(9))},
+		TxOutputs: []*protos.TxOutput{vkit.Out("A", big.NewInt(9), 0)}}
+	digest, derr := txhash.MakeTxDigestHash(tx)
+	vrt.Assert(derr == nil, "digest-computed")
+	tx.InitiatorSigns = []*protos.SignatureInfo{{PublicKey: "K0", Sign: st.Sign(0, digest)}}
+	for k, in := range signers {
+		if in {
+			tx.AuthRequireSigns = append(tx.AuthRequireSigns, &protos.SignatureInfo{PublicKey: st.KeyString(k), Sign: st.Sign(k, digest)})
+		}
+	}
+	tx.Txid, _ = txhash.MakeTransactionID(tx)
+	ok, verr := s.VerifyTx(tx)
+	accepted := ok && verr == nil
+	want := !guarded || signers[1]
+	vrt.Cover("invocation-accepted", accepted)
+	vrt.Cover("invocation-refused", !accepted)
+	vrt.Assert(!accepted || want, "invocation-accepted-only-with-the-signers-the-method-rule-demands")
+	vrt.Assert(accepted || !want, "invocation-with-the-demanded-signers-is-accepted")
+}
+
+func VerifC07Invoke() { verifC07Invoke() }
